@@ -13,7 +13,7 @@ BUILD = os.path.join(VERIF, 'build') if REPO == '/repo' else os.path.join(VERIF,
 EVIDENCE = os.path.join(VERIF, 'evidence')
 REPLAYS = os.path.join(VERIF, 'replays')
 MODPATH = 'github.com/robustirc/robustirc'
-NCPU = os.cpu_count() or 4
+NCPU = int(os.environ.get('VERIF_NCPU', '0') or 0) or os.cpu_count() or 4
 
 GOENV = dict(os.environ)
 GOENV.update({'GOFLAGS': '-mod=mod', 'GOPROXY': 'off', 'GOSUMDB': 'off',
